@@ -6,6 +6,13 @@
 -/
 namespace ParsecVerif.DepWord
 
+/-- guard of an input dependency, already evaluated for this task instance -/
+inductive Guard | none | t | f
+deriving Repr, DecidableEq
+
+def Guard.applies : Guard → Bool
+  | .f => false | _ => true
+
 /-- shape of one input flow of the task class, as far as the goal computation looks at it -/
 inductive FlowKind
   | data          -- data flow whose active input comes from a predecessor task: one release
@@ -14,17 +21,39 @@ inductive FlowKind
   | ctl1          -- plain control flow (one release expected)
   | ctlNone       -- control flow all of whose guards are false: nothing expected
   | writeOnly     -- WRITE flow whose only in-dep names the arena (no input expected)
+  | dataDeps (deps : List (Guard × Bool))  -- data flow with several guarded input deps: (guard, source is a collection)
+  | ctlDeps (deps : List (Guard × Nat))    -- control flow with several guarded deps: (guard, 0 = plain | k+1 = gather of k)
 deriving Repr, DecidableEq
+
+/-- the data loops of both goal computations stop at the FIRST dependency whose guard holds -/
+def firstApplicable (deps : List (Guard × Bool)) : Option Bool := (deps.find? (fun d => d.1.applies)).map (·.2)
+
+def ctlCount (d : Guard × Nat) : Nat := if d.2 = 0 then 1 else d.2 - 1
+
+/-- flows whose bit is set by `parsec_check_IN_dependencies_with_mask` (nothing to wait for) -/
+def isIn : FlowKind → Bool
+  | .localData => true | .ctlNone => true | .writeOnly => true
+  | .dataDeps d => firstApplicable d == some true
+  | .ctlDeps d => !(d.any (fun x => x.1.applies))
+  | _ => false
+
+/-- flows that wait for a release from a predecessor (mask mode) -/
+def isRel : FlowKind → Bool
+  | .data => true | .ctl1 => true | .ctl _ => true
+  | .dataDeps d => firstApplicable d == some false
+  | .ctlDeps d => d.any (fun x => x.1.applies)
+  | _ => false
 
 /-- `parsec_check_IN_dependencies_with_counter` when the class has IN-IN deps or control gathers -/
 def counterOf : FlowKind → Nat
   | .data => 1 | .localData => 0 | .ctl k => k | .ctl1 => 1 | .ctlNone => 0 | .writeOnly => 0
+  | .dataDeps d => if firstApplicable d == some false then 1 else 0
+  | .ctlDeps d => ((d.filter (fun x => x.1.applies)).map ctlCount).sum
 
 def goalCounter (flows : List FlowKind) : Nat := (flows.map counterOf).sum
 
 /-- bit contributed by `parsec_check_IN_dependencies_with_mask` for the flow of index `i` -/
-def inBitOf (i : Nat) : FlowKind → Nat
-  | .localData => 2 ^ i | .ctlNone => 2 ^ i | .writeOnly => 2 ^ i | _ => 0
+def inBitOf (i : Nat) (k : FlowKind) : Nat := if isIn k then 2 ^ i else 0
 
 def indexed {α} (l : List α) : List (Nat × α) := (List.range l.length).zip l
 
@@ -35,8 +64,11 @@ def goalMask (flows : List FlowKind) : Nat := 2 ^ flows.length - 1
 
 /-- flow indices that need a release from a predecessor (mask mode) -/
 def releaseBits (flows : List FlowKind) : List Nat :=
-  (indexed flows).filterMap fun p => match p.2 with
-    | .data => some p.1 | .ctl1 => some p.1 | .ctl _ => some p.1 | _ => none
+  (indexed flows).filterMap fun p => if isRel p.2 then some p.1 else none
+
+/-- a flow description the runtime can complete: it either waits for a release or is satisfied by
+    the IN computation (a data flow has an applicable input) -/
+def flowWF (k : FlowKind) : Bool := isRel k || isIn k
 
 /-! ## Counter mode -/
 
